@@ -285,7 +285,7 @@ func runOne(name string, cfg CheckCfg, tier, repo, only string, workers int, noN
 	var cands []cand
 	noVerdict := []string{}
 	var runs []*HarnessRun
-	budget := 150 * time.Second
+	budget := 400 * time.Second
 	if tier == "thorough" {
 		budget = 25 * time.Minute
 	}
